@@ -331,7 +331,10 @@ impl GraphDatabaseService {
         let (inner_send, mut inner_recv) = mpsc::channel::<Result<MutationQuery>>(2);
         tokio::spawn(async move {
             let mut inner_send = Some(inner_send);
-            loop {
+            //results waiting to be read by the caller: the caller may send every mutation before it reads a result
+            let mut results: VecDeque<Result<MutationQuery>> = VecDeque::new();
+            let mut processing = true;
+            while processing || !results.is_empty() {
                 tokio::select! {
                     msg = recv.recv(), if inner_send.is_some() => {
                         match msg {
@@ -343,13 +346,13 @@ impl GraphDatabaseService {
                                 );
                                 let submit = dbsender.send(msg);
                                 tokio::pin!(submit);
-                                //results are forwarded while the mutation waits to be accepted
+                                //results are collected while the mutation waits to be accepted
                                 loop {
                                     tokio::select! {
                                         _ = &mut submit => break,
                                         res = inner_recv.recv() => {
                                             if let Some(res) = res {
-                                                let _ = send_res.send(res).await;
+                                                results.push_back(res);
                                             }
                                         }
                                     }
@@ -359,19 +362,26 @@ impl GraphDatabaseService {
                             None => inner_send = None,
                         }
                     }
-                    res = inner_recv.recv() => {
+                    res = inner_recv.recv(), if processing => {
                         match res {
-                            Some(res) => {
-                                let _ = send_res.send(res).await;
+                            Some(res) => results.push_back(res),
+                            None => {
+                                //every mutation of the stream has been processed:
+                                //the daily log is computed now, not while they were in progress
+                                processing = false;
+                                let _ = dbsender.send(DbMessage::ComputeDailyLog()).await;
                             }
-                            //every mutation of the stream has been processed
-                            None => break,
+                        }
+                    }
+                    permit = send_res.reserve(), if !results.is_empty() => {
+                        match permit {
+                            Ok(permit) => permit.send(results.pop_front().unwrap()),
+                            //nobody reads the results anymore
+                            Err(_) => results.clear(),
                         }
                     }
                 }
             }
-            //the daily log is computed once the mutations are written, not while they are in progress
-            let _ = dbsender.send(DbMessage::ComputeDailyLog()).await;
         });
         (send, recv_res)
     }
